@@ -109,6 +109,11 @@ def config_case(draw, tier):
     nrows = draw(st.integers(1, 7))
     ncols = draw(st.integers(1, 6))
     vids = draw(st.lists(st.sampled_from(["a", "b", "c", "d", "e", "f", "g", "h", "x1", "y", "å", "B2"]), min_size=ncols, max_size=ncols, unique=True))
+    id_style = draw(st.sampled_from(["str", "str", "positional", "ints"]))
+    if id_style == "positional":
+        vids = list(range(1, ncols + 1))          # with the support variable (id 0) exactly the ids the constructor would generate
+    elif id_style == "ints":
+        vids = [10 * (j + 1) + 3 for j in range(ncols)]
     vars_ = []
     for v in vids:
         b = draw(st.sampled_from([(0, 1), (0, 1), (0, 1), (0, 2), (-1, 1), (1, 1), (0, 3)]))
@@ -120,9 +125,10 @@ def config_case(draw, tier):
             r_, c_ = draw(st.integers(0, nrows - 1)), draw(st.integers(0, ncols))
             m[r_][c_] = draw(st.sampled_from([127, 128, 129, -128, -129, 255, 256, 32767, 32768, -32768, -32769, 65535, 65536,
                                               2 ** 31 - 1, 2 ** 31, -(2 ** 31), 2 ** 31 + 1, 2 ** 40]))
-    index = draw(st.one_of(st.none(), st.just(["r%d" % (7 - i) for i in range(nrows)]), st.just(list(range(10, 10 + nrows)))))
+    index = draw(st.one_of(st.none(), st.just(["r%d" % (7 - i) for i in range(nrows)]), st.just(list(range(10, 10 + nrows))), st.just(list(range(nrows)))))
     dpv = draw(st.one_of(st.none(), st.lists(st.sampled_from([-1, -1, -2, -3, 0]), min_size=ncols, max_size=ncols)))
-    return {"from": "matrix", "m": m, "vars": vars_, "index": index, "dpv": dpv, "prios": _prios(draw, vids + ["zz"])}
+    return {"from": "matrix", "m": m, "vars": vars_, "index": index, "dpv": dpv, "prios": _prios(draw, vids + ["zz"]),
+            "plain_index": draw(st.integers(0, 3)) == 0, "dtype": draw(st.sampled_from([None, None, "int8", "int16", "int32"]))}
 
 
 def _prios(draw, ids):
@@ -130,7 +136,7 @@ def _prios(draw, ids):
     out = []
     for _ in range(n):
         d = draw(st.dictionaries(st.sampled_from(ids), st.sampled_from([1, 2, 3, -1, -2, 1, 2]), max_size=4))
-        out.append(sorted(d.items()))
+        out.append(sorted(d.items(), key=lambda kv: str(kv[0])))
     return [[list(kv) for kv in o] for o in out]
 
 
@@ -146,8 +152,15 @@ def _build_config(case, ev):
         return call(lambda: c.ge_polyhedron, what="ge_polyhedron")
     variables = [puan.variable.support_vector_variable()] + [puan.variable(v[0], (v[1], v[2])) for v in case["vars"]]
     index = [puan.variable(i, (0, 1)) for i in case["index"]] if case["index"] else []
+    if case.get("plain_index") and case["index"]:
+        index = list(case["index"])                      # the row index handed over as plain ints / strs
     dpv = np.array(case["dpv"]) if case["dpv"] is not None else None
-    return pnd.ge_polyhedron_config(case["m"], default_prio_vector=dpv, variables=variables, index=index)
+    kw = {}
+    if case.get("dtype"):
+        mx = max([abs(int(x)) for r in case["m"] for x in r] + [0])
+        if mx <= {"int8": 127, "int16": 32767, "int32": 2 ** 31 - 1}[case["dtype"]]:
+            kw["dtype"] = getattr(np, case["dtype"])      # the matrix held in a narrow integer type
+    return pnd.ge_polyhedron_config(case["m"], default_prio_vector=dpv, variables=variables, index=index, **kw)
 
 
 def _select(p, prios, solver):
